@@ -43,13 +43,21 @@ def replay_one(col, bs, root, seed, bi):
         ng = len(GX)
         wav = sorted(12.0 / g for g in GX)                       # increasing wavelength: rank w <-> GX[ng-1-w]
         aps = [10.0, 1e7] if mode == 'dist' else None
-        perm = rng.sample(range(3), 3)
-        names = [NAMES[i] for i in perm]                         # parameter-table order
-        val = lambda m, a, w: 10.0 ** (grid[perm[m]][band_of(GX[ng - 1 - w])] / 4.0)
+        dark = cfg.get('dark', 0)                                # band (1-based) in which an extra 4th model has ZERO flux
+        nmod = 4 if dark else 3
+        ALL = NAMES + ['mod_0dark']
+        perm = rng.sample(range(nmod), nmod)
+        names = [ALL[i] for i in perm]                           # parameter-table order
+
+        def val(m, a, w):
+            band = band_of(GX[ng - 1 - w])
+            if perm[m] == 3:
+                return 0.0 if band == dark - 1 else 10.0 ** (0.25 * (band + 1))
+            return 10.0 ** (grid[perm[m]][band] / 4.0)
         unc = lambda m, a, w: 0.01 * val(m, a, w)
-        pars = [{n_: 10.0 + NAMES.index(n_) for n_ in NAMES}, {n_: 100.0 * (1 + NAMES.index(n_)) for n_ in NAMES}]
+        pars = [{n_: 10.0 + ALL.index(n_) for n_ in ALL}, {n_: 100.0 * (1 + ALL.index(n_)) for n_ in ALL}]
         if fmt == 'perfile':
-            stored = [rng.choice(['asc', 'desc']) for _ in range(3)]
+            stored = [rng.choice(['asc', 'desc']) for _ in range(nmod)]
             pw.build_perfile(d, names, wav, aps, val, unc, stored=stored, aperture_dependent=(mode == 'dist'), logd_step=1.0001, par_values=pars,
                              writer=rng.choice(['lib', 'raw']))
         else:
@@ -62,7 +70,7 @@ def replay_one(col, bs, root, seed, bi):
         with fw.quiet():
             convolve_model_dir(d, filts)
         wavs = [12.0 / 6.0, 12.0 / 14.0, 12.0 / 22.0]
-        law = fw.make_extinction(K, wavs)
+        law = fw.make_extinction(K, wavs, variety=bi)
         data = os.path.join(d, 'data.txt')
         with open(data, 'w') as fh:
             for si, bb in enumerate(bs):          # several planted sources go through ONE fit() run
@@ -74,7 +82,7 @@ def replay_one(col, bs, root, seed, bi):
         out = os.path.join(d, 'out.fitinfo')
         with fw.quiet():
             fit(data, ['b0', 'b1', 'b2'], np.array([1.0, 1.0, 1.0]) * u.arcsec, d, out, n_data_min=3, extinction_law=law,
-                av_range=(0.0, 10.0), distance_range=np.array([1.0, 100.0]) * u.kpc, output_format=('N', 3), output_convolved=bool(bi % 2))
+                av_range=(0.0, 10.0), distance_range=np.array([1.0, 100.0]) * u.kpc, output_format=('N', nmod), output_convolved=bool(bi % 2))
             txt = os.path.join(d, 'pars.txt')
             write_parameters(out, txt, select_format=('N', 1))
         recs = list(FitInfoFile(out, 'r'))
@@ -113,8 +121,14 @@ def replay_one(col, bs, root, seed, bi):
                         bad = 'write_parameters first row %r, planted %s A_V %g scale %g' % (row, want_name, want_av, want_sc)
                     elif abs(float(row[5]) - pars[0][want_name]) > 1e-3 * pars[0][want_name] or abs(float(row[6]) - pars[1][want_name]) > 1e-3 * pars[1][want_name]:
                         bad = 'write_parameters prints parameters %r next to %s; its row of the parameter file is %r' % (row[5:], want_name, (pars[0][want_name], pars[1][want_name]))
-                    elif len(rec.chi2) > 1 and not rec.chi2[1] > 1e-9:
+                    elif len(rec.chi2) > 1 and not (rec.chi2[1] > 1e-9 or (dark and names_rec[1] == 'mod_0dark')):
                         bad = 'a second model also fits exactly although the grid is non-degenerate'
+                if not bad and dark:
+                    # spec DarkLast: the model with zero flux in a fitted band has chi^2 = NaN (or the 1e30 that replaces an infinite chi^2) and is ranked last
+                    if names_rec[-1] != 'mod_0dark' or not (np.isnan(float(rec.chi2[-1])) or float(rec.chi2[-1]) >= 1e30):
+                        bad = 'the model with zero flux in band %d is ranked %r with chi2 %r; spec: last, NaN or >= 1e30' % (
+                            dark, (names_rec.index('mod_0dark') + 1) if 'mod_0dark' in names_rec else None,
+                            float(rec.chi2[names_rec.index('mod_0dark')]) if 'mod_0dark' in names_rec else None)
             if bad:
                 col.violation('C08:%s:%s' % (mode, fmt), '%s package, %s mode, table order %r, source %d of %d in the run: %s' % (fmt, mode, names, si + 1, len(bs), bad),
                               dict(desc, cfg=cfg, src=bb['src'], all_sources=[x['cfg'] for x in bs]))
@@ -135,14 +149,14 @@ def run(ctx):
     uniq = []
     for b in em:
         c = b['cfg']
-        key = (c['g'], c['k'], c['mp'], c['pl'][0], c['pl'][1] if c['mode'] == 'indep' else c['i0'], c['w'], c['mode'])
+        key = (c['g'], c['k'], c['mp'], c['pl'][0], c['pl'][1] if c['mode'] == 'indep' else c['i0'], c['w'], c['mode'], c.get('dark', 0))
         if key not in seen:
             seen.add(key)
             uniq.append(b)
     rng = random.Random(ctx.seed)
     rng.shuffle(uniq)
     chosen = uniq[:240] if not ctx.thorough else uniq
-    ctx.notes['mc_constants'] = '3 grids of 3 models (one with a degenerate pair, detected by the spec), 2 extinction patterns, every planted model x 4 (A_V0, scale) x 3 relative errors x {aperture-independent, distance grid 1/10/100 kpc x 3 planted distances}'
+    ctx.notes['mc_constants'] = '3 grids of 3 models (one with a degenerate pair, detected by the spec), 2 extinction patterns, every planted model x 4 (A_V0, scale) x 3 relative errors x {aperture-independent, distance grid 1/10/100 kpc x 3 planted distances} x {no extra model, a 4th model with zero flux in band 1 | 2}'
     ctx.notes['behaviours_emitted'] = len(uniq)
     ctx.notes['behaviours_replayed'] = len(chosen)
     ctx.notes['nondegenerate_replayed'] = sum(1 for b in chosen if b['nondeg'])
@@ -151,7 +165,7 @@ def run(ctx):
 
     groups = {}
     for b in chosen:
-        groups.setdefault((b['cfg']['g'], b['cfg']['k'], b['cfg']['mode']), []).append(b)
+        groups.setdefault((b['cfg']['g'], b['cfg']['k'], b['cfg']['mode'], b['cfg'].get('dark', 0)), []).append(b)
     runs = []
     for key in sorted(groups):
         g_ = groups[key]
